@@ -181,6 +181,12 @@ func (n *stubNet) roundTrip(real *http.Transport, r *http.Request) (*http.Respon
 		b.inflight--
 		n.mu.Unlock()
 	}
+	if err := r.Context().Err(); err != nil {
+		// (net/http's transport gives up at once on a request whose context is already over)
+		done()
+		n.ev("answered", id, b.name, 0, "ctx-cancelled")
+		return nil, err
+	}
 	if plan != nil && plan.hold {
 		simrt.Block("hold", func() bool { n.mu.Lock(); defer n.mu.Unlock(); return plan.released })
 	}
@@ -265,6 +271,8 @@ func (n *stubNet) probe(b *stubBackend, r *http.Request) (*http.Response, error)
 	switch pm {
 	case "conn":
 		return nil, &net.OpError{Op: "dial", Net: "tcp", Err: errors.New("connection refused")}
+	case "status4xx": // the health path is gone / asks for credentials: not a passing probe either
+		return &http.Response{StatusCode: 404, Status: "404 Not Found", Proto: "HTTP/1.1", ProtoMajor: 1, ProtoMinor: 1, Header: http.Header{}, Body: io.NopCloser(strings.NewReader("no such path")), Request: r}, nil
 	case "status":
 		return &http.Response{StatusCode: 503, Status: "503 Service Unavailable", Proto: "HTTP/1.1", ProtoMajor: 1, ProtoMinor: 1, Header: http.Header{}, Body: io.NopCloser(strings.NewReader("down")), Request: r}, nil
 	}
@@ -349,6 +357,8 @@ type reqSpec struct {
 	plan   *reqPlan
 	hdr    map[string]string
 	cancelAfter time.Duration // > 0: the client goes away (request context cancelled) after this long
+	port        int           // > 0: the peer's source port (a kept-alive connection is one ip:port for many requests)
+	preCancelled bool         // the client is gone before the request reaches the balancer (context already cancelled)
 }
 
 // newRequest builds the request a net/http server would hand to the handler.
@@ -375,6 +385,11 @@ func (h *lbHarness) newRequest(spec reqSpec) (*http.Request, int) {
 		ctx, cancel = context.WithCancel(ctx)
 		time.AfterFunc(spec.cancelAfter, cancel)
 	}
+	if spec.preCancelled {
+		var cancel context.CancelFunc
+		ctx, cancel = context.WithCancel(ctx)
+		cancel()
+	}
 	r, err := http.NewRequestWithContext(ctx, m, "http://helios.test"+p, nil)
 	if err != nil {
 		panic(err)
@@ -386,6 +401,9 @@ func (h *lbHarness) newRequest(spec reqSpec) (*http.Request, int) {
 	}
 	// every request comes from another source port (a new connection), as real clients do
 	port := 40000 + (id*7919)%20000
+	if spec.port > 0 {
+		port = spec.port
+	}
 	if strings.Contains(client, ":") && !strings.HasPrefix(client, "[") {
 		r.RemoteAddr = fmt.Sprintf("[%s]:%d", client, port)
 	} else {
